@@ -340,4 +340,7 @@ def run(ctx: Ctx, repo: Repo, tier: str) -> None:
     ctx.note("R-C02.4 below is C02's attribution rule, run here as a necessary condition of C17 (the recorded function is the one whose code the filter judged)")
     ctx.attempt(_c02.rule_attribution, ctx, repo)
     ctx.attempt(tracer_attribution_history, ctx, repo, "R-C02.4")
+    # the module the __main__ gate tested is the module the row is stored under (R-C08.10)
+    from . import c08 as _c08
+    ctx.attempt(_c08.rule_row_names, ctx, repo)
     ctx.settle()
